@@ -158,10 +158,17 @@ let run_sched_case k hdr body =
         let tag =
           if next_silent !s t then "-"
           else begin
+            let th0 = List.nth !s.s_thr (w+1) in
+            let ystart = (match th0.t_todo with
+                          | ARel (o, O) :: _ -> if (List.nth !s.s_heap (int_of_nat o)).o_pooled then Some o else None
+                          | _ -> None) in
             let (s1, ev) = step nslab kmem !s t in
             s := s1;
             if ev_is_bad ev then anybad := true;
-            tag_of ev
+            (match ystart, ev with
+             | Some o, EvRecycled (_, _) -> ignore o; "L"
+             | Some o, _ -> "Y" ^ string_of_int (int_of_nat o)     (* the reset-to-default of a pooled object begins *)
+             | None, _ -> tag_of ev)
           end in
         let g = ref 10000 in
         while next_silent !s t && !g > 0 do
@@ -171,7 +178,10 @@ let run_sched_case k hdr body =
         done;
         (* the counts of all existing objects when the thread parks before its next atomic increment / decrement *)
         let th = List.nth !s.s_thr (w+1) in
-        let parks_at_atomic = match th.t_todo with (AInc (_, _) | ADec _ | ADecKeep _) :: _ -> true | _ -> false in
+        let parks_at_atomic = match th.t_todo with
+          | (AInc (_, _) | ADec _ | ADecKeep _) :: _ -> true
+          | ARel (o, O) :: _ -> (List.nth !s.s_heap (int_of_nat o)).o_pooled
+          | _ -> false in
         let snap =
           if not parks_at_atomic then "-" else begin
             let sb = Buffer.create 64 in
